@@ -25,7 +25,7 @@ OpOK(S, o) ==
     [] o.op = "podAdd"      -> PodAddOK(S, o.pod, o.q)
     [] o.op = "podUpdate"   -> PodUpdateOK(S, o.pod, o.q)
     [] o.op = "migrate"     -> MigrateOK(S, o.pod, o.in)
-    [] o.op \in {"podDelete", "reserve", "unreserve"} -> PodKnown(S, o.pod)
+    [] o.op \in {"podDelete", "reserve", "unreserve", "raceDelete"} -> PodKnown(S, o.pod)
     [] OTHER -> FALSE
 OpF(S, o) ==
   CASE o.op = "quota"       -> QuotaUpsertF(S, QReq(o))
@@ -33,6 +33,8 @@ OpF(S, o) ==
     [] o.op = "podAdd"      -> PodAddF(S, o.pod, o.q, Vec(o.req), o.np, o.bound)
     [] o.op = "podUpdate"   -> PodUpdateF(S, o.pod, o.q, Vec(o.req), o.np, o.bound)
     [] o.op = "podDelete"   -> PodDeleteF(S, o.pod)
+    \* Reserve / Unreserve of a pod racing the informer's delete of the same pod: both complete, the pod is gone
+    [] o.op = "raceDelete"  -> PodDeleteF(S, o.pod)
     [] o.op = "reserve"     -> ReserveF(S, o.pod)
     [] o.op = "unreserve"   -> UnreserveF(S, o.pod)
     [] o.op = "migrate"     -> MigrateF(S, o.pod, o.in)
@@ -42,7 +44,7 @@ ApplyAll(S, ops, i) == IF i > Len(ops) THEN S ELSE ApplyAll(OpF(S, ops[i]), ops,
 RECURSIVE AllOK(_, _, _)
 AllOK(S, ops, i) == IF i > Len(ops) THEN TRUE ELSE OpOK(S, ops[i]) /\ AllOK(OpF(S, ops[i]), ops, i + 1)
 
-SingleOps == {"quota", "quotaDelete", "podAdd", "podUpdate", "podDelete", "reserve", "unreserve", "migrate"}
+SingleOps == {"quota", "quotaDelete", "podAdd", "podUpdate", "podDelete", "reserve", "unreserve", "migrate", "raceDelete"}
 TSingle == /\ ~done /\ l <= TLen /\ Trace[l].op \in SingleOps
            /\ l' = l + 1 /\ UNCHANGED <<seg, done>>
            /\ OpOK(Cur, Ev) /\ Becomes(OpF(Cur, Ev)) /\ ObsOK(Ev)
